@@ -21,7 +21,14 @@ def c09(tier, replay=None):
         'any exception raised by get_ordered() counts as "reported as an error"',
     ]
     graph.run_core(report, tier)
-    report.coverage['exhaustive'] = True
+    n_cfg, n_replayed = _c09_projects(report, tier)
+    report.coverage['rule'] += (
+        ' Part 2: EvoGraph.tla transcribes the construction of the evolution graph, batching and '
+        'execution order for projects with applied/pending evolutions, new models and AFTER_/BEFORE_'
+        'EVOLUTIONS declarations (all projects with 2 apps exhaustively, 3-4 apps sampled and '
+        'evaluated by TLC): %d projects, %d replayed as real projects and judged on the order of '
+        'creating_models / applying_evolution signals.' % (n_cfg, n_replayed))
+    report.coverage['exhaustive'] = False
     return report.finish()
 
 
@@ -1296,3 +1303,117 @@ def _c07_rich_family(report, tier, nontrivial):
                              'failed_run_left_changes': not r['unchanged']}, detail)
             report.coverage['traces_validated_against_impl'] += 1
     return len(chosen), fired
+
+
+def _c09_projects(report, tier):
+    """C09 part 2: EvoGraph.tla + real projects with dependency declarations."""
+    import json as _json
+    import os
+    import random
+    from concurrent.futures import ThreadPoolExecutor
+    from .common import scratch_dir, seed
+    from .engines import evograph as G
+    from .tlc import run_tlc, require_ok, write_cfg
+    rng = random.Random(seed() * 6151 + 23)
+    records = []
+    # exhaustive small scope
+    cfg = write_cfg('MC_EvoGraph_2.cfg', '''
+SPECIFICATION Spec
+CONSTANTS
+  NApps = 2
+  MaxPending = 1
+  FromFile = FALSE
+  EmitRecords = TRUE
+CONSTRAINT Constraint
+''')
+    res = require_ok(run_tlc('EvoGraph', cfg, workers=8, timeout=3000), 'EvoGraph.tla NApps=2')
+    report.add_tlc('EvoGraph NApps=2 MaxPending=1 (exhaustive)', res.stats())
+    seen = set()
+    for r in res.records:
+        key = _json.dumps({k: r[k] for k in ('applied', 'pending', 'newm', 'after', 'before', 'eafter')},
+                          sort_keys=True)
+        if key not in seen:
+            seen.add(key)
+            records.append(r)
+    n_exh = len(records)
+    # sampled, evaluated by TLC on exactly these projects
+    for napps, count in ([(3, 40)] if tier == 'quick' else [(3, 400), (4, 200)]):
+        cfgs = G.sample_configs(rng, napps, count)
+        path = os.path.join(scratch_dir(), 'evograph-%d.json' % napps)
+        with open(path, 'w') as fp:
+            _json.dump(cfgs, fp)
+        cfg = write_cfg('MC_EvoGraph_file_%d.cfg' % napps, '''
+SPECIFICATION Spec
+CONSTANTS
+  NApps = %d
+  MaxPending = 2
+  FromFile = TRUE
+  EmitRecords = TRUE
+CONSTRAINT Constraint
+''' % napps)
+        res = require_ok(run_tlc('EvoGraph', cfg, workers=8, timeout=3000,
+                                 env={'CFG_FILE': path}), 'EvoGraph.tla sampled NApps=%d' % napps)
+        report.add_tlc('EvoGraph NApps=%d (%d sampled projects)' % (napps, count), res.stats())
+        seen2 = set()
+        for r in res.records:
+            key = _json.dumps({k: r[k] for k in ('applied', 'pending', 'newm', 'after', 'before', 'eafter')},
+                              sort_keys=True)
+            if key not in seen2:
+                seen2.add(key)
+                records.append(r)
+    # replay: all sampled ones, and a seeded part of the exhaustive ones that
+    # contains every predicted-violation shape
+    exh = records[:n_exh]
+    rest = records[n_exh:]
+    hot = [r for r in exh if r['viol']]
+    cold = [r for r in exh if not r['viol'] and (r['after'] or r['before'] or r['eafter'])]
+    rng.shuffle(hot)
+    rng.shuffle(cold)
+    k = 30 if tier == 'quick' else 300
+    chosen = hot[:k // 3] + cold[:k] + rest
+
+    def norm(r):
+        return {'napps': r['napps'], 'applied': list(r['applied']), 'pending': list(r['pending']),
+                'newm': list(r['newm']), 'after': [list(x) for x in r['after']],
+                'before': [list(x) for x in r['before']],
+                'eafter': [[x[0], list(x[1])] for x in r['eafter']]}
+
+    def one(r):
+        try:
+            return G.run_config(norm(r))
+        except Exception:
+            import traceback
+            return {'harness_error': traceback.format_exc(limit=5)}
+    with ThreadPoolExecutor(12) as ex:
+        observations = list(ex.map(one, chosen))
+    nontrivial = set()
+    for r, obs in zip(chosen, observations):
+        cfgd = norm(r)
+        report.coverage['evaluations'] += 1
+        if obs.get('harness_error') or obs.get('setup_error'):
+            report.notes.append('project problem: %s' % (obs.get('harness_error') or obs.get('setup_error')))
+            continue
+        report.coverage['traces_validated_against_impl'] += 1
+        if cfgd['after'] or cfgd['before'] or cfgd['eafter']:
+            nontrivial.add(_json.dumps(cfgd, sort_keys=True))
+        fails, unsat = G.judge(cfgd, obs)
+        spec_order = [tuple(x) for x in r['executed']]
+        for cls, detail in fails:
+            fp = {'class': cls, 'part': 'projects',
+                  'predicted_by_spec': (('InvRespected' in r['viol']) if cls in (
+                      'requirement-broken', 'unit-not-executed-exactly-once') else
+                      ('InvReported' in r['viol']) if cls == 'unsatisfiable-not-reported' else
+                      ('InvNoFalseRejection' in r['viol']))}
+            if cls == 'requirement-broken':
+                fp['kinds'] = detail['kinds']
+            report.fail(fp, {'project': cfgd, 'real_order': obs['order'], 'spec_order': spec_order,
+                             'observed': detail, 'outcome': obs['outcome'], 'error': obs['error_msg']})
+        if obs['outcome'] == 'ok' and r['ok'] and [tuple(x) for x in obs['order']] != spec_order:
+            report.spec_drift('EvoGraph.tla predicts order %s, code executed %s' % (spec_order, obs['order']),
+                              cfgd)
+        elif (obs['outcome'] == 'ok') != bool(r['ok']):
+            report.spec_drift('EvoGraph.tla predicts %s, code %s (%s)'
+                              % ('an order' if r['ok'] else 'an error', obs['outcome'], obs['error_msg'][:80]), cfgd)
+        report.sample({'project': cfgd, 'real_order': obs['order'], 'outcome': obs['outcome']}, limit=8)
+    report.coverage['distinct_nontrivial'] += len(nontrivial)
+    return len(records), len(chosen)
